@@ -404,3 +404,9 @@ def r6(ctx):
         ctx.ob(f"{q}:redirect:{first}->{second}:handshake-on-its-own-transport", bad is None, f"{n} handshakes, each on the transport created for its URL" if bad is None else
                f"the opening handshake for {bad[0]!r} is written to {bad[1]!r}, a transport created for {bad[2]!r}: the request (and every frame after it) for a wss:// target "
                f"travels on the old connection -- no TLS handshake, no certificate or host-name check for the new target", loc, {"path": path_text(bad[3], 10)} if bad else None)
+
+
+@rule("R-C11-7", min_instances=100, title="which URLs count as secure: parse_url folded on constant URLs -- tls is true exactly for the wss scheme, and a scheme spelt with capitals (WSS://) is refused or secure, never accepted as a plain connection")
+def r_sib_r_c11_7(ctx):
+    from .c18 import r7 as url_grid
+    url_grid(ctx)
